@@ -371,7 +371,16 @@ func (m *Match) populateOtherGroups() {
 	if m.otherGroups == nil {
 		m.otherGroups = make([]Group, len(m.matchcount)-1)
 		for i := 0; i < len(m.otherGroups); i++ {
-			m.otherGroups[i] = newGroup(m.regex.GroupNameFromNumber(i+1), m.text, m.matches[i+1], m.matchcount[i+1])
+			// i+1 is a slot index, which is the group number only when numbering is dense
+			name := ""
+			if list := m.regex.capslist; list != nil {
+				if i+1 < len(list) {
+					name = list[i+1]
+				}
+			} else {
+				name = m.regex.GroupNameFromNumber(i + 1)
+			}
+			m.otherGroups[i] = newGroup(name, m.text, m.matches[i+1], m.matchcount[i+1])
 		}
 	}
 }
